@@ -280,6 +280,10 @@ def run(env: Env) -> Outcome:
                  ["create-oidc", "p", "u2", "default", "t2"], ["create-token", "p", None]]},
         {"ops": [["env-del", NOWHERE], ["env-del", d], ["create-token", "p", None], ["env-del", d], ["env-upsert", d, False, "1.0"],
                  ["select", "default"], ["env-del", d], ["env-del", B], ["env-add", B, False, None], ["env-del", B], ["select-any"]]},
+        # the built-in default environment without a stored row: log in there, log in to another environment under the same
+        # profile name, go back to the default by URL (refused while it has no row; must never keep the other environment's pick)
+        {"ops": [["env-del", d], ["create-token", "p1", "sk-aaaaaa1111zzzz"], ["env-add", B, False, None], ["create-token", "p2", "sk-aaaaaa1111zzzz"],
+                 ["env-switch", d], ["select-any"], ["env-switch", B], ["env-del", B], ["env-switch", d], ["probe", False, None], ["env-switch", d]]},
         {"ops": [["raw", m] for m in MALFORMED[:5]] + [["create-token", "p", None]] + [["raw", m] for m in MALFORMED[5:]] + [["select-any"]]},
     ]
     cases += corpus
